@@ -1,4 +1,5 @@
 import TracklibVerif.Props.C18
+import TracklibVerif.Props.C18Fast
 import TracklibVerif.Lemmas.DTWInt64
 /-! # C18 — the fast variant on tracks with `numpy.int64` coordinates (finding `fdtw-numpy-int-coordinates-power-overflow`)
 
@@ -97,6 +98,26 @@ theorem match_fdtw_int64_correct (toInt : α → Int) (G : Geom α) (big : α) (
   refine ⟨out, outd, ?_, ed, hs, fun S hS => by rw [hs]; exact hlow S hS, hc, hcost, hnb⟩
   rw [match_fdtw_int64_exact toInt G big k hk dim dist hd (TrackObj.fresh t1) t2 hb]
   exact e
+
+omit [IsStrictOrderedRing α] in
+/-- **above the bound the int64 run still returns a coupling whose accumulated cost is the score — in int64 arithmetic**: for any
+distances (powers that wrap included), when `big` is above the accumulated wrapped cost of every partial coupling (`FastBig`; wrapped
+costs are below `(n1 + n2) · 2^63` in absolute value, `big` is 1e300), `match(…, FDTW, p = k)` on `numpy.int64` coordinates succeeds, `S`
+is a monotone unit-step coupling from the first to the last pair, the reported score is the sum of the **wrapped** `B**k` along `S`,
+`nb_links` and the `pair` feature describe `S`, nobody is left out. What fails there is optimality with respect to the true `B**k`
+(`fdtw_int64_witness`). -/
+theorem match_fdtw_int64_any (toInt : α → Int) (ofInt : Int → α) (G : Geom α) (big : α) (k : Nat) (dim : DimArg α)
+    (dist : Pt α → Pt α → α) (hd : distanceOf G dim = .ok dist)
+    (t1 t2 : List (Pt α)) (h1 : 0 < t1.length) (h2 : 0 < t2.length)
+    (hbig : FastBig big (weight64 toInt ofInt k) dist t1 t2) :
+    ∃ out, matchFdtw64 toInt ofInt G big k dim (TrackObj.fresh t1) t2 = .ok out ∧
+      IsCouplingOf t1.length t2.length out.S ∧
+      costBack (weight64 toInt ofInt k) 0 (Dmat dist t1 t2) out.S = out.score ∧
+      out.nbLinks = out.S.length ∧
+      (∀ j, j < t1.length → ∃ r : Row α, out.rows[j]? = some r ∧ (∀ i, i ∈ r.pair ↔ (i, j) ∈ out.S) ∧ r.pair ≠ []) ∧
+      (∀ i, i < t2.length → ∃ (j : Nat) (r : Row α), out.rows[j]? = some r ∧ i ∈ r.pair) := by
+  obtain ⟨out, he, hc, hcost, hnb, _, _, r2, r3⟩ := fdtw_path_any dist big (weight64 toInt ofInt k) t1 t2 h1 h2 hbig
+  exact ⟨out, warpW_fdtw G big _ dim dist hd t1 t2 h1 h2 out he, hc, hcost, hnb, r2, r3⟩
 
 end field
 
